@@ -294,8 +294,13 @@ func (a *IntruderAgent) act(w *World) {
 		case 0, 1:
 			w.Stats.Probe("drift-edit")
 			w.Tracef("DRIFT edit %s", k)
+			onlyEmpty := draw(3, "drift-empty-field") == 0
 			_, _ = tp.Mutate(k, func(o store.Obj) {
 				if d, ok := o["data"].(map[string]any); ok {
+					if _, has := d["e"]; has && onlyEmpty {
+						d["e"] = "drifted" // only the field whose desired value is the empty string
+						return
+					}
 					d["k"] = "drifted"
 				}
 				if sp, ok := o["spec"].(map[string]any); ok {
